@@ -1,3 +1,16 @@
-Require Import Model.Base Corr.Common Corr.Init.
-Definition check (x : pcase * pout) : Z := code (corr_init (fst x) (snd x)) (reset_judge (fst x) (snd x)).
-Definition model_out (pc : pcase) := run_pcase pc.
+(* Corr/C17.v — reset first: at the Interface boundary, and below the real transports (decoded pin log; the
+   data pins may idle low or high before the first word) *)
+Require Import Model.Base Corr.Common Corr.Init Corr.L2 Corr.DrawL.
+Definition check (x : lcase * lout) : Z :=
+  match x with
+  | (L1 pc, LO1 p) => code (corr_init pc p) (reset_judge pc p)
+  | (L2 pc, LO2 p) =>
+      match model_of_id (pc_model pc) with
+      | Some m => code (match run_pcase2 pc with Some mo => pout2_eqb mo p | None => false end)
+                       (reset_judge pc (decode_pout2 pc m p) &&
+                        reset_judge pc (decode_pout2_from (lines_high (bus_width pc)) pc m p))
+      | None => 3
+      end
+  | _ => 3
+  end.
+Definition model_out := Corr.DrawL.model_out.
